@@ -51,6 +51,18 @@ def d1(ctx, prog):
         ctx.undecided('C03-D1', key, 'flatten/remember-shape idiom of update() not recognised', upd.where())
         return
     arg = reshape.value.args[0] if len(reshape.value.args) == 1 else ast.Tuple(elts=reshape.value.args, ctx=ast.Load())
+    # sizes read into locals before the reshape (`n, m = traces.shape[0], data.shape[0]`) stand for the expressions they were read from
+    sizes = {}
+    for st_ in stmts:
+        if st_ is reshape:
+            break
+        if isinstance(st_, ast.Assign) and len(st_.targets) == 1:
+            t_, v_ = st_.targets[0], st_.value
+            pairs_ = [(t_, v_)] if isinstance(t_, ast.Name) else (list(zip(t_.elts, v_.elts)) if isinstance(t_, ast.Tuple) and isinstance(v_, ast.Tuple) and len(t_.elts) == len(v_.elts) else [])
+            for x_, y_ in pairs_:
+                if isinstance(x_, ast.Name) and isinstance(y_, ast.Subscript) and isinstance(y_.value, ast.Attribute) and y_.value.attr == 'shape':
+                    sizes[x_.id] = y_
+    arg = astutil.expand_locals(arg, sizes)
     txt = norm(arg).replace(' ', '')
     ctx.check(txt in (f'({shape_var}[0],-1)', f'({dparam}.shape[0],-1)'), 'C03-D1', key,
               f'data is flattened with reshape({norm(arg)}), not (n, -1): words are not kept one per column in C order',
@@ -176,14 +188,113 @@ def d6(ctx, prog):
     return n
 
 
+def bind_word_loop(st, evl):
+    """`for d, (y, xy, c) in enumerate(zip(A, B, C))` / `for y, xy in zip(A, B)` / `for d in range(k)`: each target element stands for
+    an element of the corresponding iterable (element-wise semantics)"""
+    from .. import ratfun
+    it, tg = st.iter, st.target
+    if isinstance(it, ast.Call) and norm(it.func) == 'enumerate' and it.args and isinstance(tg, ast.Tuple) and len(tg.elts) == 2:
+        it, tg = it.args[0], tg.elts[1]
+    if isinstance(it, ast.Call) and norm(it.func) == 'zip' and isinstance(tg, ast.Tuple) and len(tg.elts) == len(it.args):
+        for t_, a_ in zip(tg.elts, it.args):
+            if isinstance(t_, ast.Tuple) and isinstance(a_, ast.Call) and norm(a_.func) == 'zip' and len(a_.args) == len(t_.elts):
+                for t2_, a2_ in zip(t_.elts, a_.args):          # nested zip
+                    if isinstance(t2_, ast.Name):
+                        try:
+                            evl.env[t2_.id] = evl.ev(a2_)
+                        except ratfun.Unknown:
+                            evl.env.pop(t2_.id, None)
+                continue
+            if isinstance(t_, ast.Name):
+                try:
+                    evl.env[t_.id] = evl.ev(a_)
+                except ratfun.Unknown:
+                    evl.env.pop(t_.id, None)
+                    if isinstance(a_, ast.Name):
+                        evl.alias[t_.id] = a_.id      # a row of a not yet filled output buffer: stores into the row fill the buffer
+    elif isinstance(tg, ast.Name) and not (isinstance(it, ast.Call) and norm(it.func).split('.')[-1] in ('range', 'arange')):
+        try:
+            evl.env[tg.id] = evl.ev(it)
+        except ratfun.Unknown:
+            evl.env.pop(tg.id, None)
+
+
+def d7(ctx, prog):
+    """the statistic as a rational function of the accumulators (sa.ratfun): what each `_compute` returns, with locals substituted
+    and element-wise semantics, must be *the same function* as Pearson's r = (n Sxy - Sx Sy) / (sqrt(n Sxx - Sx^2) sqrt(n Syy - Sy^2))
+    (CPA, both formulations) and  S1/n1 - (S - S1)/(n - n1)  (DPA): equal squares by cross-multiplication of normal forms and equal
+    sign of the covariance term.  Decides the formula itself - sign conventions, n versus n-1, swapped moments - for every input."""
+    from .. import ratfun
+    from ..ratfun import Poly, RF
+    S = Poly.sym
+    n_, ex, ex2, ey, ey2, exy = S('n'), S('ex'), S('ex2'), S('ey'), S('ey2'), S('exy')
+    pearson = RF(n_ * exy - ex * ey, Poly.const(1), {})
+    pa, pb = n_ * ex2 - ex * ex, n_ * ey2 - ey * ey
+    pearson.roots = {pa.key(): (pa, -1), pb.key(): (pb, -1)}
+    tot, ones, p1 = S('tot'), S('ones'), S('p1')
+    dpa_ref = RF(ones * (n_ - p1) - (tot - ones) * p1, p1 * (n_ - p1), {})
+    cases = [('scared.distinguishers.cpa', 'CPADistinguisherMixin', pearson, 'exy', {'self.processed_traces': 'n', 'self.ex': 'ex', 'self.ex2': 'ex2', 'self.ey': 'ey', 'self.ey2': 'ey2', 'self.exy': 'exy'},
+              'Pearson r = (n Sxy - Sx Sy) / (sqrt(n Sxx - Sx^2) sqrt(n Syy - Sy^2))'),
+             ('scared.distinguishers.cpa', 'CPAAlternativeDistinguisherMixin', pearson, 'exy', {'self.processed_traces': 'n', 'self.ex': 'ex', 'self.ex2': 'ex2', 'self.ey': 'ey', 'self.ey2': 'ey2', 'self.exy': 'exy'},
+              'Pearson r'),
+             ('scared.distinguishers.dpa', 'DPADistinguisherMixin', dpa_ref, 'ones', {'self.processed_traces': 'n', 'self.accumulator_traces': 'tot', 'self.accumulator_ones': 'ones', 'self.processed_ones': 'p1'},
+              'mean of the traces whose bit is 1 minus mean of those whose bit is 0 = S1/n1 - (S - S1)/(n - n1)')]
+    n = 0
+    for modname, cname, ref, lead, seeds, what in cases:
+        ci = prog.need_class(modname, cname)
+        f = ci.methods.get('_compute')
+        if f is None:
+            ctx.undecided('C03-D7', f'{ci.key}::formula', '_compute not found', ci.mod.relpath)
+            continue
+        n += 1
+        key = f'{f.key}::formula'
+        try:
+            from .. import inline as _inl
+            def helper(call, f=f):
+                r = prog.resolve(f.mod, call.func) if isinstance(call.func, (ast.Name, ast.Attribute)) else None
+                if r and r[0] == 'func':
+                    body = [s_ for s_ in r[1].node.body if not (isinstance(s_, ast.Expr) and isinstance(s_.value, ast.Constant))]
+                    if len(body) == 1 and isinstance(body[0], ast.Return) and body[0].value is not None:
+                        return [p_ for p_ in r[1].params if p_ != 'self'], body[0].value
+                return None
+            outs = ratfun.run_function(_inl.inlined(prog, f).node, seeds, bind_word_loop, helper)
+            if not outs:
+                raise ratfun.Unknown('no returned expression derivable')
+            bad = None
+            for v, st in outs:
+                if not v.roots and not ref.roots:
+                    ok = v.num * ref.den == ref.num * v.den
+                    why = 'it is not the same rational function of the accumulators'
+                else:
+                    ok = ratfun.same_square(v, ref)
+                    why = 'its square is not the square of the reference (another function of the accumulators)'
+                    if ok:
+                        sv, sr = ratfun.sign_profile(v, lead), ratfun.sign_profile(ref, lead)
+                        if sv is None:
+                            raise ratfun.Unknown('sign of the covariance term not determined')
+                        ok = sv == sr
+                        why = 'the sign is reversed (the covariance term enters negatively)'
+                if not ok:
+                    bad = (st, why)
+            if bad:
+                ctx.fail('C03-D7', key, f'what {f.qualname} returns is not {what}: {bad[1]}', f.where(bad[0]))
+            else:
+                ctx.ok('C03-D7', key, f'the returned value is {what}, as a rational function of the accumulators (normal forms cross-multiplied)', f.where())
+        except ratfun.Unknown as e:
+            ctx.undecided('C03-D7', key, f'formula not derivable: {e}', f.where())
+    return n
+
+
 def run(ctx, prog):
     ctx.rule('C03-D1', 'update flattens data to (n,-1) and remembers the shape; compute restores origin_shape[1:] + (-1,) when there was more than one word dimension')
     ctx.rule('C03-D2', 'every CPA/DPA _compute depending on a division maps inf -> NaN before returning')
     ctx.rule('C03-D3', 'axis-label typing of CPA/DPA accumulation and compute: labels of +=, broadcasting, contraction and the returned (words, samples) layout are consistent')
-    ctx.assume('the numeric value of the statistic (Pearson r, difference of means) is not decided; that an undefined entry is never *finite* depends on float cancellation and is not decided')
+    ctx.assume('the numeric value of the statistic (Pearson r, difference of means) is not decided; that an undefined entry is never *finite* is decided for the CPA variance terms under exactly representable accumulators (C03-D6: integer-valued inputs, sums below 2^24 in float32 / 2^53 in float64) and not beyond')
     from .. import universe as _uni
     _uni.inline_base_entry_points(ctx, prog)
     d1(ctx, prog)
+    ctx.rule('C03-D7', 'rational-function normal form: each _compute returns Pearson r (CPA, alternative CPA) / the difference of class means (DPA) as a function of the accumulators: equal squares by cross-multiplication, equal sign of the covariance term')
+    ctx.floor('statistics compared with their definition', d7(ctx, prog), 3)
     ctx.rule('C03-D6', 'for a constant column the variance term under each CPA square root cancels exactly (exact / rounded-once abstraction over n, c): undefined entries are NaN, not rounding residues')
     ctx.floor('CPA variance terms checked for exact cancellation', d6(ctx, prog), 4)
     n = d2(ctx, prog, 'C03-D2', {'scared.distinguishers.cpa', 'scared.distinguishers.dpa'})
